@@ -274,6 +274,7 @@ type RecFSM struct {
 	batching bool
 	onEvent  func(e fsmEvent)
 	idOfLog  func(l *raft.Log) uint64
+	delay    time.Duration // slow FSM: every Apply takes this long
 }
 
 func (f *RecFSM) add(e fsmEvent) {
@@ -284,6 +285,9 @@ func (f *RecFSM) add(e fsmEvent) {
 }
 
 func (f *RecFSM) Apply(l *raft.Log) interface{} {
+	if f.delay > 0 {
+		time.Sleep(f.delay)
+	}
 	f.mu.Lock()
 	defer f.mu.Unlock()
 	id := idOf(l.Data)
